@@ -7,7 +7,7 @@ ID = "C12"
 LEVEL = "exploration"
 RULE = ("Hypothesis programs of 1-3 linked files with labels everywhere and a link expression K + sum k_i*(L_i - L_j) spelled directly, "
         "through difference symbols, through alias symbols (p = L), with >>0, <<1 ... >>1 and /2*2 wrappers, as '.link e' at any "
-        "top-level position of any linked file or as a leading '. = e'; helper symbols shadowing constants of the same name exported "
+        "top-level position of any linked file or as a leading '. = e'; a '. = . + k' gap behind the directive of a cancelling base; helper symbols shadowing constants of the same name exported "
         "by another file; also no directive (default 1000), two directives (must be "
         "address-conflict) and genuinely self-dependent bases with a non-zero net coefficient (must be recursive-definition); after a "
         "leading directive, '. = X' skips of every size 0..64 forward (exact zero fill, later labels shifted) and 1..64 backward (must "
@@ -55,7 +55,7 @@ def c12_program(draw):
         mains.append(path)
         labels += labs
     kind = draw(st.sampled_from(["cancel", "cancel", "cancel", "const", "none", "two", "self", "skips", "skips"]))
-    K = draw(st.sampled_from([0o2000, 0o1000, 0o40000, 0o100, 0o100000, 0o600, 0o157000]))
+    K = draw(st.sampled_from([0o2000, 0o1000, 0o40000, 0o100, 0o100000, 0o600, 0o157000, 0, 0o10]))
     meta = {"kind": kind, "K": K, "diffs": 0, "skips": []}
     # the file that carries the directive: any linked file for '.link' (the base is a property of the whole program), the first
     # one for a leading '. =' and for the skip programs
@@ -131,6 +131,17 @@ def c12_program(draw):
     else:
         # '.link' anywhere at the top level of the first file
         first.insert(draw(st.integers(0, len(first))), {"k": "link", "e": e, "form": "link"})
+    if kind == "cancel" and draw(st.integers(0, 2)) == 0:
+        # a gap behind the directive (possibly between the labels the base expression mentions): its size does not depend on the base
+        li = mains.index(linkfile)
+        path = draw(st.sampled_from(mains[li:]))
+        body = files[path]
+        lo = 0
+        if path == linkfile:
+            lo = next(i for i, s_ in enumerate(body) if s_["k"] == "link") + 1
+        k = 2 * draw(st.integers(0, 16))
+        body.insert(draw(st.integers(lo, len(body))), {"k": "skip", "e": ("bin", "+", ("dot",), ("num", k))})
+        meta["gap"] = k
     if kind == "two":
         pos = draw(st.integers(0, len(first)))
         first.insert(pos, {"k": "link", "e": ("num", draw(st.sampled_from([K, 0o3000]))), "form": "link"})
@@ -215,6 +226,8 @@ def run_shard(spec, ctx):
         nt = meta["diffs"] > 0 or any(meta["skips"])
         labels = [f"kind-{meta['kind']}", f"model-{r.kind}" + (":" + r.errors[0] if r.errors else ""), f"files-{len(prog['mains'])}"]
         labels += ["shape-" + s for s in meta.get("shapes", [])]
+        if meta.get("gap") is not None:
+            labels.append("cancel-with-gap")
         if meta.get("repeat_skip"):
             labels.append("skip-in-repeat")
         if meta.get("decoys"):
